@@ -191,6 +191,14 @@ func sampleElem(c vals.V) vals.V {
 		e := embOf("a", 1, nil)
 		e.K = strings.TrimPrefix(c.K, "[]")
 		return e
+	case "[]flag":
+		return vals.V{K: "flag", S: "true"}
+	case "[]name":
+		return vals.V{K: "name", S: "a"}
+	case "[]*task", "[2]*task":
+		return vals.V{K: "*task", M: map[string]vals.V{"ID": vals.Int(1), "Title": vals.Str("wa")}}
+	case "[]task":
+		return vals.V{K: "task", M: map[string]vals.V{"ID": vals.Int(1), "Title": vals.Str("wa")}}
 	case "[]qty":
 		return vals.V{K: "qty", S: "1"}
 	case "[2]ratio":
@@ -255,6 +263,10 @@ func scalarPaths(sc sscope, d Data, name string) (paths []string, samples []vals
 		b, _ := field(s, "title")
 		c, _ := field(s, "Count")
 		return []string{name + ".Name", name + ".title", name + ".Count"}, []vals.V{a, b, c}, true, true
+	case isTask(s.K):
+		a, _ := field(s, "Title")
+		b, _ := field(s, "ID")
+		return []string{name + ".Title", name + ".ID"}, []vals.V{a, b}, true, true
 	case isEmb(s.K):
 		// Code and ID are promoted from the embedded struct, Title is the struct's own field
 		a, _ := field(s, "Code")
@@ -289,6 +301,14 @@ func readsFor(sc sscope, d Data, name string, salt int, choose func(n int) int, 
 	// struct items are addressed by Go field name inside expressions (the JSON tag of an item
 	// field is a path-lookup feature; expression access by tag belongs to C17, not to loops)
 	selfAttr()
+	if s0, ok := sc.lookup(d, name); ok && isTask(s0.K) && !sc.nullable(name) {
+		// what depends on the item's Go type: type(p); for *Task also the Stringer used by
+		// {{ p }} / :data-x="p" and a registered function declared func(*Task)
+		out = append(out, Read{Pos: "type", Cond: Cond{Path: name}})
+		if s0.K == "*task" {
+			out = append(out, Read{Pos: "text", Cond: Cond{Path: name}}, Read{Pos: "fn", Cond: Cond{Path: name}}, Read{Pos: "attr", Cond: Cond{Path: name}})
+		}
+	}
 	if noExpr(path) || strings.HasSuffix(path, ".title") {
 		return out
 	}
@@ -415,7 +435,7 @@ func only(n Node, pos ...string) Node {
 
 // textOf is element-less output of the names: ID({{ a }},{{ b == lit ? 'Y' : 'N' }},…).
 func textOf(id string, sc sscope, d Data, names []string, salt int, choose func(int) int) Node {
-	n := only(probeOf(id, sc, d, names, salt, choose), "text", "tern")
+	n := only(probeOf(id, sc, d, names, salt, choose), "text", "tern", "type", "fn")
 	return Node{Text: n.Probe}
 }
 
@@ -455,7 +475,7 @@ func probeRich(id string, sc sscope, d Data, names []string, salt int, choose fu
 var letters = []string{"a", "b", "c", "d", "p", "q"}
 
 // collKinds are the sequence kinds of the property's quantifier ("[]any" in three flavours).
-var collKinds = []string{"[]any:str", "[]any:int", "[]any:map", "[]string", "[]int", "[]float64", "[]bool", "[3]int", "[]map", "[]rec", "[]*rec", "[]emb", "[]pemb", "[]*emb", "[]qty", "[2]ratio", "[]dur"}
+var collKinds = []string{"[]any:str", "[]any:int", "[]any:map", "[]string", "[]int", "[]float64", "[]bool", "[3]int", "[]map", "[]rec", "[]*rec", "[]emb", "[]pemb", "[]*emb", "[]qty", "[2]ratio", "[]dur", "[]flag", "[]name", "[]*task", "[2]*task", "[]task", "[]any:*task"}
 
 // fixedColl builds a collection of kind k with n distinct items (deterministic).
 func fixedColl(k string, n int) vals.V {
@@ -476,6 +496,12 @@ func fixedColl(k string, n int) vals.V {
 			l = append(l, recOf(letters[i], "t"+letters[i], i+1))
 		case "[]emb", "[]pemb", "[]*emb":
 			l = append(l, embOf(letters[i], i+1, []string{"x" + letters[i]}))
+		case "[]flag":
+			l = append(l, vals.Bool(i%2 == 1)) // false first: one item = all zero
+		case "[]name":
+			l = append(l, vals.Str([]string{"", "a", "", "b", "c"}[i]))
+		case "[]*task", "[2]*task", "[]task", "[]any:*task":
+			l = append(l, vals.V{K: "*task", M: map[string]vals.V{"ID": vals.Int(i + 1), "Title": vals.Str("w" + letters[i])}})
 		case "[]qty", "[]dur":
 			// zero first, then alternating: one item = all zero
 			l = append(l, vals.Int(i%2*(i+2)))
@@ -547,13 +573,19 @@ func core1(full bool, yield func(Case) bool) {
 		if k == "[3]int" {
 			max = 3
 		}
-		if k == "[2]ratio" {
+		if k == "[2]ratio" || k == "[2]*task" {
 			max = 2
 		}
-		named := k == "[]qty" || k == "[2]ratio" || k == "[]dur"
+		named := k == "[]qty" || k == "[2]ratio" || k == "[]dur" || k == "[]flag" || k == "[]name"
 		for n := 0; n <= max; n++ {
 			if !full && strings.HasSuffix(k, "emb") && n != 0 && n != 2 {
 				continue // quick tier: the embedding struct kinds with 0 and 2 items only
+			}
+			if !full && strings.Contains(k, "task") && (n != 2 || k == "[]task" || k == "[]any:*task") {
+				continue // quick tier: two pointer items, typed slice and array
+			}
+			if !full && named && n == 1 && k != "[]qty" && k != "[]flag" {
+				continue // quick tier: the all-zero single item list for one numeric and the bool kind
 			}
 			if !full && named && n != 1 && n != 2 {
 				continue // quick tier: named numeric items: [0] (all zero) and [0, x]
@@ -890,6 +922,83 @@ func core3(yield func(Case) bool) {
 	}
 }
 
+// ---------------------------------------------------------------- exhaustive core 4
+
+var preWs = []string{"\n", " ", "\t", "  "}
+
+// core4: loops inside <pre>, whose instances contain white-space-only text between and after
+// their elements: <template> / <span> loops x separator x 0..3 items x form x nested or flat.
+func core4(yield func(Case) bool) {
+	i := 0
+	for _, tag := range []string{"template", "span"} {
+		for _, ws := range preWs {
+			for n := 0; n <= 3; n++ {
+				for _, idx := range []string{"", "i"} {
+					for _, nested := range []bool{false, true} {
+						i++
+						lines := fixedColl("[]string", n)
+						cells := vals.List("[]int", vals.Int(1), vals.Int(2))
+						d := Data{Root: "map", Slots: []Slot{{"lines", lines}, {"cells", cells}}}
+						l := &Loop{ID: "L1", Tag: tag, Idx: idx, Var: "l", Coll: "lines"}
+						if idx != "" {
+							l.Body = append(l.Body, Node{Piece: &Piece{Tag: "b", Path: idx, Ws: preWs[(i+1)%len(preWs)]}})
+						}
+						l.Body = append(l.Body, Node{Piece: &Piece{Tag: []string{"i", ""}[i%2], Path: "l", Ws: ws}})
+						if nested {
+							in := &Loop{ID: "L2", Tag: []string{"template", "span"}[i/2%2], Var: "c", Coll: "cells",
+								Body: []Node{{Piece: &Piece{Tag: "u", Path: "c", Ws: preWs[(i+2)%len(preWs)]}}}}
+							l.Body = append(l.Body, Node{Loop: in}, Node{Piece: &Piece{Ws: "\n"}})
+						}
+						c := Case{API: []string{"string", "fragment", "load"}[i%3], Pretty: i%2 == 0, Data: d,
+							Prog: []Node{{Pre: &PreBlock{ID: "pre1", Body: []Node{{Loop: l}}}}}}
+						if !yield(c) {
+							return
+						}
+					}
+				}
+			}
+		}
+	}
+}
+
+// pre draws a <pre> block over the lists of plain strings / ints of the data (nil when none).
+func (g *gen) pre(sc sscope) *Node {
+	var lists []string
+	for _, n := range g.roots {
+		if v, ok := sc.lookup(g.d, n); ok && (v.K == "[]string" || v.K == "[]int" || v.K == "[]any") && !hasNil(v) {
+			if e, has := firstNonNil(v); has && (e.K == "string" || e.K == "int") {
+				lists = append(lists, n)
+			}
+		}
+	}
+	if len(lists) == 0 {
+		return nil
+	}
+	var loop func(depth int, outer []string) *Loop
+	loop = func(depth int, outer []string) *Loop {
+		l := &Loop{ID: g.id("L"), Tag: g.pick([]string{"template", "template", "span"}, "pretag"), Var: []string{"l", "c"}[depth-1], Coll: g.pick(lists, "prelist")}
+		if g.int(0, 1, "preform") == 1 {
+			l.Idx = []string{"li", "ci"}[depth-1]
+		}
+		reads := append(append([]string{}, outer...), l.Var)
+		if l.Idx != "" {
+			reads = append(reads, l.Idx)
+		}
+		for k := g.int(1, 3, "npieces"); k > 0; k-- {
+			l.Body = append(l.Body, Node{Piece: &Piece{Tag: g.pick([]string{"b", "i", "u", ""}, "ptag"), Path: g.pick(reads, "ppath"), Ws: g.pick([]string{"\n", " ", "\t", "  ", "\n", ""}, "pws")}})
+		}
+		if depth < 2 && g.int(0, 2, "prenested") == 0 {
+			l.Body = append(l.Body, Node{Loop: loop(depth+1, reads)}, Node{Piece: &Piece{Ws: g.pick(preWs, "pws2")}})
+		}
+		return l
+	}
+	pb := &PreBlock{ID: g.id("pre")}
+	for k := g.int(1, 2, "npreloops"); k > 0; k-- {
+		pb.Body = append(pb.Body, Node{Loop: loop(1, nil)})
+	}
+	return &Node{Pre: pb}
+}
+
 // ---------------------------------------------------------------- random nests (rapid)
 
 type gen struct {
@@ -938,6 +1047,12 @@ func (g *gen) elem(k string, depth int, label string) vals.V {
 			}
 		}
 		return m
+	case "[]flag":
+		return vals.Bool(rapid.Bool().Draw(g.t, label))
+	case "[]name":
+		return vals.Str(g.pick([]string{"", "", "a", "b"}, label))
+	case "[]*task", "[2]*task", "[]task", "[]any:*task":
+		return vals.V{K: "*task", M: map[string]vals.V{"ID": vals.Int(g.int(1, 4, label+"n")), "Title": vals.Str("w" + g.pick(letters, label))}}
 	case "[]qty", "[]dur":
 		return vals.Int(g.int(0, 2, label) * 3) // zero as often as not
 	case "[2]ratio":
@@ -967,7 +1082,7 @@ func (g *gen) coll(k string, depth int, label string) vals.V {
 	if k == "[3]int" {
 		max = 3
 	}
-	if k == "[2]ratio" {
+	if k == "[2]ratio" || k == "[2]*task" {
 		max = 2
 	}
 	if depth > 0 {
@@ -1307,6 +1422,11 @@ func genCase(t *rapid.T) Case {
 	for k := g.int(1, 2, "ntop"); k > 0; k-- {
 		c.Prog = append(c.Prog, g.loop(sscope{}, 1, nil)...)
 	}
+	if g.int(0, 2, "toppre") == 0 {
+		if pn := g.pre(sscope{}); pn != nil {
+			c.Prog = append(c.Prog, *pn)
+		}
+	}
 	if ml := mapLists(sscope{}, g.d, g.roots); len(ml) > 0 && g.int(0, 1, "toplist") == 0 {
 		c.Prog = append(c.Prog, listOf(g.id("q"), sscope{}, g.d, g.pick(ml, "listitems"), rapid.Bool().Draw(t, "destr"), g.int(0, 19, "salt"), g.roots))
 	}
@@ -1323,6 +1443,10 @@ func classify(c Case) (bool, []string) {
 	var walk func(ns []Node, depth int, outer []string)
 	walk = func(ns []Node, depth int, outer []string) {
 		for _, n := range ns {
+			if n.Pre != nil {
+				cls["loop-inside-pre"] = true
+				walk(n.Pre.Body, depth, outer)
+			}
 			l := n.Loop
 			if l == nil {
 				continue
